@@ -853,3 +853,4 @@ EXPLANATION += (' Location-independent additions: RECTIFY/knots-strictly-increas
 EXPLANATION += (' Round 6: ' + 'UNIFORM/once/<function>: each time-bearing field receives the operation at exactly one site that runs (two sites in different arms of one test count as one).')
 EXPLANATION += (' Round 7: ' + "ADJUST/reversed-rejected, ADJUST/no-negative-event-stored, CONCAT/no-zero-shift (scenarios; guards read at expression level); UNIFORM accepts the update computed from the argument's twin field.")
 EXPLANATION += (' Rounds 9-10: ' + 'STRETCH/unscaled-exit-only-for-factor-one (must-pass-through of the total_time scaling); REPEAT/carry-after-break shared from C02.')
+EXPLANATION += (' Round 11: ' + 'REPEAT/cut-takes-every-event; CONCAT/redundant-is-restating-the-predecessor.')
